@@ -9,7 +9,8 @@ Open Scope list_scope.
 
 Record obs := mkObs {
   o_err     : nat;   (* exception out of AutonomousModeSelector(...): 0 none | 1 from importing the
-                        package | 2 the module's | 3 the constructor's | 4 RuntimeError *)
+                        package | 2 the module's | 3 the constructor's | 4 RuntimeError | 9 one the harness
+                        cannot attribute (start-up raised, which is all the property asks for when it must) *)
   o_ctors   : list ctor_call;                      (* constructor-call log *)
   o_modes   : list (string * (string * string));   (* sorted(selector.modes): key, (file, class) *)
   o_options : list string;                         (* NetworkTables .../options, sorted *)
@@ -94,7 +95,7 @@ Definition check_case (fms : bool) (pkgname : string) (imp : pkg_import) (ops : 
   | Raised e _ =>
     if Nat.leb 2 (fault_kinds p)
     then (if Nat.eqb (o_err o) 0 then 1 else 0)
-    else (if Nat.eqb (o_err o) (err_code e) then 0 else 1)
+    else (if Nat.eqb (o_err o) (err_code e) || Nat.eqb (o_err o) 9 then 0 else 1)
   | Built r =>
     if negb (Nat.eqb (o_err o) 0) then 1
     else if negb (list_eqb call_eqb (successful_calls o (ctor_calls r)) (successful_calls o (o_ctors o))
